@@ -469,7 +469,9 @@ func (mbox *MailboxView) staticNumSet(numSet imap.NumSet) imap.NumSet {
 	// untouched
 	switch numSet := numSet.(type) {
 	case imap.SeqSet:
-		max := uint32(len(mbox.l))
+		// Sequence numbers sent by the client refer to its own view of the
+		// mailbox, "*" is the last message it has been told about
+		max := mbox.tracker.NumMessages()
 		var static imap.SeqSet
 		for _, r := range numSet {
 			start, stop := r.Start, r.Stop
